@@ -4,6 +4,8 @@ import (
 	"fmt"
 	"time"
 
+	"github.com/emmansun/gmsm/smx509"
+
 	"gitee.com/Trisia/gotlcp/dtlcp"
 	"verifharness/internal/pair"
 	"verifharness/internal/pki"
@@ -12,13 +14,32 @@ import (
 func init() {
 	dtlcpScriptAvailable = true
 	dtlcpScriptRun = dtlcpScript
+	dtlcpScriptHistRun = dtlcpScriptHist
 }
 
 // dtlcpScript is the DTLCP twin of tlcpScript (scripted clients over the datagram pipe; the
 // cookie exchange is answered by re-sending the ClientHello with the cookie).
 func dtlcpScript(s scen) (string, string) {
 	st := pki.Std()
-	scfg := dServer(s.pol, s.suite, st.Root.Pool, pki.Now, nil)
+	ci, ob, _ := dtlcpScriptConn(s, dServer(s.pol, s.suite, st.Root.Pool, pki.Now, nil), nil, st.Root.Pool, pki.Now)
+	return ci.tokens("1"), ob.tokens("1")
+}
+
+// dtlcpScriptHist is the DTLCP twin of tlcpScriptHist.
+func dtlcpScriptHist(s scen) (string, string) {
+	st := pki.Std()
+	cache := dtlcp.NewLRUSessionCache(8)
+	ci1, ob1, offer := dtlcpScriptConn(s, dServer(s.pol, s.suite, st.Root.Pool, pki.Now, cache), nil, st.Root.Pool, pki.Now)
+	t1 := ci1.tokens("1")
+	roots2, now2 := cfg2Of(s.cfg2)
+	ci2, ob2, _ := dtlcpScriptConn(s, dServer(s.pol2, s.suite, roots2, now2, cache), offer, roots2, now2)
+	t2 := ci2.tokens("2")
+	_, nowToks := judgeCerts(ci1.ders, roots2, now2, ci1.ecdhe)
+	return t1 + t2 + fmt.Sprintf(" 2.offer=%s now0=%s now1=%s", offerTok(ci2.cf), nowToks[0], nowToks[1]), ob1.tokens("1") + ob2.tokens("2")
+}
+
+func dtlcpScriptConn(s scen, scfg *dtlcp.Config, offer *sessOffer, roots *smx509.CertPool, now time.Time) (*connInfo, connObs, *sessOffer) {
+	st := pki.Std()
 	// the scripted client steps at its own pace: the real server must never retransmit or
 	// fragment mid-case (the watchdog below bounds a case that waits for input)
 	scfg.InitialRetransmitTimeout = time.Hour
@@ -48,6 +69,9 @@ func dtlcpScript(s scen) (string, string) {
 		CipherSuites: []uint16{suiteID(s.suite)}, Time: pki.NowFn, RootCAs: st.Root.Pool,
 	}
 	sc := dtlcp.NewVerifScript("client", ce, se.LocalAddr(), ccfg)
+	if offer != nil {
+		sc.SessionID, sc.ResumeMaster = offer.id, offer.master
+	}
 	cvBits, finOK := pl.cvBits, pl.finOK
 
 	// everything the script does runs under a watchdog: closing the pipe unblocks it
@@ -67,6 +91,21 @@ func dtlcpScript(s scen) (string, string) {
 				if sc.Send("ClientHello", nil) != nil {
 					return
 				}
+			}
+			if ev.Kind == "ServerHello" && sc.Resuming {
+				// abbreviated handshake with the master secret the script brought along
+				finOK = true
+				if sc.ExpectCCS() != nil {
+					return
+				}
+				if ev, err := sc.ReadMsg(); err != nil || ev.Kind != "Finished" {
+					return
+				}
+				if sc.SendCCS() != nil {
+					return
+				}
+				_ = sc.Send("Finished", nil)
+				return
 			}
 			if ev.Kind == "ServerHelloDone" {
 				break
@@ -134,7 +173,7 @@ func dtlcpScript(s scen) (string, string) {
 		<-fin
 	}
 	ci := &connInfo{ecdhe: isECDHE(s.suite), cf: sniffPackets(ce.SentCopy()), sf: sniffPackets(se.SentCopy()),
-		cvBits: cvBits, finOK: finOK, roots: st.Root.Pool, now: pki.Now}
+		cvBits: cvBits, finOK: finOK, roots: roots, now: now}
 	cs := srv.ConnectionState()
 	ob := connObs{err: serr, resumed: cs.DidResume, peers: len(cs.PeerCertificates), chains: len(cs.VerifiedChains),
 		req: reqTok(ci.sf), alert: alertTok(ci.sf), panicked: panicked}
@@ -142,5 +181,9 @@ func dtlcpScript(s scen) (string, string) {
 	if !sc.PeerFinishedOK {
 		ob.cliErr = fmt.Errorf("no server Finished")
 	}
-	return ci.tokens("1"), ob.tokens("1")
+	var next *sessOffer
+	if id := sc.SessionIDInUse(); len(id) > 0 && sc.HasMaster() {
+		next = &sessOffer{id: append([]byte(nil), id...), master: sc.Master()}
+	}
+	return ci, ob, next
 }
